@@ -15,6 +15,7 @@ import (
 	"encoding/json"
 	"errors"
 	"fmt"
+	"hash/fnv"
 	"io"
 	"os"
 	"strings"
@@ -187,7 +188,7 @@ func TestVerifC17Legacy(t *testing.T) {
 				if replay && (rc.Scenario != "matrix" || rc.Iss != iss || rc.KidDID != kd || rc.Key != k) {
 					continue
 				}
-				if !replay && !r.Mine(idx) {
+				if !replay && !verifMine(r, "matrix", iss, kd, k) {
 					continue
 				}
 				ctx := verifLegacyCtx(t, keys)
@@ -242,8 +243,39 @@ func TestVerifC17Legacy(t *testing.T) {
 		}},
 	}
 	for _, cons := range consumers {
+		// the complete product {algorithm x genuine key of the matching type, honestly signed}: outside the documented list => refused
 		for _, fam := range enum.AllFamilies {
-			if replay && (rc.Scenario != cons.name || rc.Family != fam) {
+			for _, alg := range enum.FittingAlgs(fam) {
+				idx++
+				if replay && (rc.Scenario != cons.name || rc.Variant != "honest-product" || rc.Family != fam || rc.Env != alg) {
+					continue
+				}
+				if !replay && !verifMine(r, cons.name, fam, "honest", alg) {
+					continue
+				}
+				signer, err := enum.GenerateJOSEKey("own", fam)
+				if err != nil {
+					t.Fatal(err)
+				}
+				signer.Kid = cons.ownDID + "#signing-key"
+				ctx := verifLegacyCtx(t, map[string]crypto.PublicKey{signer.Kid: signer.Public()})
+				tok := verifSign(map[string]any{"kid": signer.Kid}, cons.claims(), signer.Priv, alg)
+				ok, _ := cons.run(ctx, tok)
+				allowed := false
+				for _, a := range cons.allowed {
+					allowed = allowed || a == alg
+				}
+				r.Eval(cons.name + "|honest-product|" + fam + "|" + alg)
+				r.Outcome(fmt.Sprintf("%s honest %s token: allowed=%v accepted=%v", cons.name, alg, allowed, ok))
+				if ok && !allowed {
+					r.Violation("C17|alg-not-allowed|"+cons.name+"|honest-key/"+alg,
+						fmt.Sprintf("%s accepts an honest, correctly signed %s token (genuine %s key): outside the algorithms documented as allowed for this consumer", cons.name, alg, fam),
+						verifLegacyCase{Scenario: cons.name, Family: fam, Variant: "honest-product", Env: alg})
+				}
+			}
+		}
+		for _, fam := range enum.AllFamilies {
+			if replay && (rc.Scenario != cons.name || rc.Family != fam || rc.Variant == "honest-product") {
 				continue
 			}
 			signer, err1 := enum.GenerateJOSEKey("own", fam)
@@ -297,7 +329,7 @@ func TestVerifC17Legacy(t *testing.T) {
 				if replay && (v.Name != rc.Variant || rc.Env != "") {
 					continue
 				}
-				if !replay && !r.Mine(idx) {
+				if !replay && !verifMine(r, cons.name, fam, v.Name) {
 					continue
 				}
 				if r.Expired() {
@@ -331,7 +363,7 @@ func TestVerifC17Legacy(t *testing.T) {
 				if replay && (v.Name != rc.Variant || rc.Env == "") {
 					continue
 				}
-				if !replay && !r.Mine(idx) {
+				if !replay && !verifMine(r, cons.name, fam, "env", v.Name) {
 					continue
 				}
 				verifFP = &verifFaultPlan{pos: -1}
@@ -365,4 +397,12 @@ func TestVerifC17Legacy(t *testing.T) {
 	}
 	r.Bound("cases_legacy", idx)
 	_ = honest
+}
+
+// verifMine assigns a case to a worker by a hash of its name (the variant lists differ slightly between workers because key
+// material is random per process; a position-based split would skip some cases in every worker).
+func verifMine(r *ev.Run, parts ...string) bool {
+	h := fnv.New32a()
+	h.Write([]byte(strings.Join(parts, "|")))
+	return r.Mine(int(h.Sum32() & 0x7fffffff))
 }
